@@ -36,6 +36,7 @@ type vSrvCarrier struct {
 	drainBlks int
 	onQuiesce func() // runs once every goroutine has come to rest, with the tunnel still up
 	pauseAt   int    // >0: before delivering script[pauseAt] everything is left to come to rest (the peer is slow)
+	onRecv    func() // runs while the loop is parked in Recv, before the next frame is handed over
 }
 
 func (c *vSrvCarrier) Context() context.Context { return c.ctx }
@@ -50,6 +51,9 @@ func (c *vSrvCarrier) Send(m *tunnelpb.ServerToClient) error {
 }
 
 func (c *vSrvCarrier) Recv() (*tunnelpb.ClientToServer, error) {
+	if c.onRecv != nil {
+		c.onRecv()
+	}
 	if c.pos < len(c.script) {
 		if c.pauseAt > 0 && c.pos == c.pauseAt {
 			b0 := verifBlockedCount()
@@ -276,6 +280,11 @@ func verifH_SrvNewStream() {
 	closing := false
 	if focus != 2 {
 		closing = verifBool("closing")
+	}
+	if closing && verifBool("shutdownWhileParked") {
+		// shutdown is initiated while the receive loop is parked in Recv: the very next RPC is refused
+		closing = false
+		car.onRecv = func() { closing = true }
 	}
 	hl := &vHandlerLog{}
 	if focus == 2 && verifBool("handlerFails") {
